@@ -216,6 +216,23 @@ def discharge(ctx, site):
                             bound = rhs["res"]["value"]
                         if bound is not None and bound + k < 2 ** 15:
                             return ("G4", "%s + %d after the early return on %s %s %d: the sum stays far below the type's maximum" % (lo[0], k, lo[0], f["op"], bound))
+    if site["kind"] == "assert" and what == "Overflow(Add)" and n.get("k") == "Binary" and n.get("op") == "+":
+        # G5: `i + k` for the index i of `.enumerate()` over a slice / Vec: i < len <= isize::MAX, so a small k cannot overflow usize
+        k = _lit_int(n["r"])
+        lo = local_of(n["l"])
+        if k is not None and 0 <= k <= 2 ** 15 and lo is not None and (strip_transparent(n["l"]).get("ty") or "") == "usize":
+            b = idx.binding.get(lo[1])
+            if b and b["kind"] == "param" and b.get("closure") is not None and (b.get("path") or ()) and (b["path"][-1][0] in ("tfield", "tuple", "elem") or True):
+                mc = idx.parent.get(id(b["closure"]))
+                base = mc["recv"] if mc is not None and mc.get("k") == "MethodCall" else None
+                seen_enum = False
+                while base is not None and strip_transparent(base).get("k") == "MethodCall":
+                    if strip_transparent(base)["method"] == "enumerate":
+                        seen_enum = True
+                    base = strip_transparent(base)["recv"]
+                first = (b.get("path") or ((None, None, None),))[-1]
+                if seen_enum and (0 in first or "0" in [str(x) for x in first]):
+                    return ("G5", "%s is the index of `.enumerate()` (below the length of an in-memory sequence, at most isize::MAX): %s + %d cannot overflow" % (lo[0], lo[0], k))
     if site["kind"] == "call" and n.get("k") == "MethodCall":
         m = n["method"]
         place = _place_str(n["recv"])
